@@ -140,9 +140,9 @@ Proof.
   - (* ConnFirst *) apply id_inv_same; [exact Hq| |exact Hinv]. cbn [step]. unfold step_conn_first.
     destruct (phase s); try (split; reflexivity).
     destruct (max_buffered <? f_len f); [unfold init_fail; same_id_tac|].
-    set (s2 := match typed_handler cfg (f_typ f) with Some _ => _ | None => _ end).
+    set (s2 := match first_handler cfg (f_typ f) with Some _ => _ | None => _ end).
     assert (Hs2 : same_id s s2).
-    { subst s2. destruct (typed_handler cfg (f_typ f)) as [k|]; [|same_id_tac].
+    { subst s2. destruct (first_handler cfg (f_typ f)) as [k|]; [|same_id_tac].
       destruct k; try (same_id_tac; fail).
       eapply same_id_trans; [|apply ack_enqueue_same_id]. same_id_tac. }
     eapply same_id_trans; [exact Hs2|].
